@@ -235,8 +235,20 @@ static void gen(unsigned long long seed, long long count) {
     long long sc = g.coin(75) ? 1 : (1LL << g.uni(3, 18));
     int nr = (int)g.uni(1, 4); long long rh = g.uni(1, 3) * sc, x0 = g.uni(-4, 4) * sc, y0 = g.uni(-4, 4) * sc;
     auto X = [&]() { return x0 + g.uni(-3, 14) * sc; }; auto Y = [&]() { return y0 + g.uni(-2, 6) * sc; };
-    printf("SQ %d", nr);
-    for (int r = 0; r < nr; ++r) { long long a = x0 + g.uni(0, 3) * sc, b = a + g.uni(0, 12) * sc; printf(" %lld %lld %lld %lld %d", a, b, y0 + r * rh, y0 + (r + 1) * rh, (int)g.uni(0, 7)); }
+    // rows: stacked; 30 % of them given in TWO pieces of the same y that abut exactly (70 %: one ends at X, the other starts at X) or leave a gap,
+    // each piece with an orientation of its own, in either order in rows()
+    std::vector<std::array<long long, 5>> rws;
+    for (int r = 0; r < nr; ++r) {
+      long long a = x0 + g.uni(0, 3) * sc, b = a + g.uni(0, 12) * sc, ya = y0 + r * rh, yb = y0 + (r + 1) * rh; int o1 = (int)g.uni(0, 7);
+      if (g.coin(30) && b - a >= 2 * sc) {
+        long long m = a + g.uni(1, (b - a) / sc - 1) * sc, m2 = m + (g.coin(70) ? 0 : g.coin(50) ? 1 : sc); int o2 = (int)g.uni(0, 7);
+        std::array<long long, 5> p1{a, m, ya, yb, o1}, p2{std::min(m2, b), b, ya, yb, o2};
+        if (g.coin(50)) std::swap(p1, p2);
+        rws.push_back(p1); rws.push_back(p2);
+      } else rws.push_back({a, b, ya, yb, o1});
+    }
+    printf("SQ %d", (int)rws.size());
+    for (auto &w : rws) printf(" %lld %lld %lld %lld %d", w[0], w[1], w[2], w[3], (int)w[4]);
     int ne = (int)g.uni(0, 2); printf(" %d", ne);
     for (int i = 0; i < ne; ++i) { long long a = X(), b = a + g.uni(0, 5) * sc, c = Y(), d = c + g.uni(0, 4) * sc; printf(" %lld %lld %lld %lld", a, b, c, d); }
     int nc = (int)g.uni(1, 6); printf(" %d", nc);
@@ -256,7 +268,7 @@ static void gen(unsigned long long seed, long long count) {
       case 5: a[0] = cell; a[1] = g.uni(0, 7); break;
       case 6: case 7: a[0] = g.coin(30) ? -1 : g.uni(0, nc - 1); a[1] = g.uni(0, 2); break;
       case 8: a[0] = g.uni(0, nc - 1); a[1] = X(); a[2] = Y(); a[3] = g.uni(0, 7); break;
-      case 9: a[0] = g.uni(0, 3); a[1] = x0 + g.uni(0, 3) * sc; a[2] = a[1] + g.uni(0, 12) * sc; a[3] = g.uni(0, 7); break;
+      case 9: a[0] = g.uni(0, 5); a[1] = x0 + g.uni(0, 3) * sc; a[2] = a[1] + g.uni(0, 12) * sc; a[3] = g.uni(0, 7); break;
       case 10: a[0] = g.coin(60); a[1] = x0 + g.uni(0, 3) * sc; a[2] = a[1] + g.uni(0, 12) * sc; a[3] = g.uni(0, 7); break;
       case 11: a[0] = x0 + g.uni(0, 3) * sc; a[1] = a[0] + g.uni(0, 12) * sc; a[2] = y0 + g.uni(-1, 1) * sc; a[4] = g.uni(1, 3) * sc;
                a[3] = a[2] + g.uni(0, 4) * a[4] + (g.coin(30) ? g.uni(0, a[4] - 1) : 0); a[5] = g.uni(0, 3); break;
@@ -273,7 +285,7 @@ static void gen(unsigned long long seed, long long count) {
 
 // SP cases: a circuit of the legalization domain (harness/cgen.hpp: split rows, multi-row cells, polarities, fixed cells of any size) and
 // 3-9 steps; legalize is called at least twice with public edits in between (aimed at what a Circuit keeps between calls: moved fixed
-// obstructions, changed flags, changed rows), sometimes placeDetailed
+// obstructions, changed flags, changed rows -- through setRows AND through setupRows, which rebuilds the rows on its own), sometimes placeDetailed
 static void genp(unsigned long long seed, long long count) {
   SplitMix g(seed ^ 0x9c01u);
   for (long long it = 0; it < count; ++it) {
@@ -297,11 +309,26 @@ static void genp(unsigned long long seed, long long count) {
     int nn = (int)g.uni(0, 4); printf(" %d", nn);
     for (int n = 0; n < nn; ++n) { int np = (int)g.uni(2, 4); printf(" %d", np); for (int j = 0; j < np; ++j) { int cc = (int)g.uni(0, nc - 1); printf(" %d %lld %lld", cc, g.uni(0, std::max(1LL, t.cells[cc][2] / sc)) * sc, g.uni(0, std::max(1LL, t.cells[cc][3] / sc)) * sc); } }
     int ns = (int)g.uni(3, 9); printf(" %d", ns);
+    bool have11 = false; long long last11[6] = {0, 0, 0, 0, 0, 0};
     for (int s = 0; s < ns; ++s) {
-      static const int ops[] = {16, 16, 16, 16, 8, 8, 8, 8, 1, 1, 2, 2, 6, 6, 7, 7, 9, 9, 10, 3, 4, 5, 12, 14, 15, 17, 17};
+      static const int ops[] = {16, 16, 16, 16, 8, 8, 8, 8, 1, 1, 2, 2, 6, 6, 7, 7, 9, 9, 10, 3, 4, 5, 12, 14, 15, 17, 17, 11, 11, 11};
       int op = ops[g.uni(0, sizeof ops / sizeof *ops - 1)]; long long a[6] = {0, 0, 0, 0, 0, 0};
       if (s == ns - 1 || (s == 0 && g.coin(70))) op = 16;
+      else if (have11 && g.coin(12)) op = 11;   // rows set up once are set up again (same area, other orientations) more often than by chance
       switch (op) {
+      case 11: {   // setupRows: the rows replaced as a whole (bounding box of the rows: the row set stays when the rows were full-width and stacked;
+                   // split rows / y gaps get filled), the same area again with the other initial / alternating orientation, a smaller / larger /
+                   // shifted area, seldom another row height (half / double: the cells stay multiples of it or leave the domain)
+        int v = (int)g.uni(0, 9);
+        if (have11 && v < 4) { for (int k = 0; k < 5; ++k) a[k] = last11[k]; a[5] = last11[5] ^ (g.coin(70) ? 2 : g.uni(1, 3)); }
+        else {
+          a[0] = bx0; a[1] = bx1; a[2] = by0; a[3] = by1; a[4] = rh; a[5] = g.uni(0, 3);
+          if (v >= 5) { a[0] += g.uni(-2, 2) * sc; a[1] += g.uni(-2, 2) * sc; if (a[1] < a[0]) a[1] = a[0]; }
+          if (v >= 7) { a[2] += g.uni(-1, 1) * rh; a[3] += g.uni(-1, 1) * rh + (g.coin(30) ? g.uni(0, rh - 1) : 0); }
+          if (v == 9) a[4] = (g.coin(50) && rh % 2 == 0) ? rh / 2 : 2 * rh;
+        }
+        have11 = true; for (int k = 0; k < 6; ++k) last11[k] = a[k];
+        break; }
       case 1: a[0] = cellPick(); a[1] = X(); break;
       case 2: a[0] = cellPick(); a[1] = Y(); break;
       case 3: a[0] = g.uni(0, nc - 1); a[1] = g.uni(1, 6) * sc; break;
